@@ -1,1 +1,1329 @@
-print("{}")
+#!/venv/bin/python
+"""C01: fail-closed call-graph extractor.  Walks the Python `ast` of the analysis-relevant sources of
+$FICKLING_REPO/fickling and writes coq/gen/CallGraph.v (only when its content changed).
+
+  nodes   every function / method / lambda / module-level body in scope, plus one leaf per external
+          callee or referenced external name, plus three pseudo nodes:
+            <implicit>        every dunder method and every base-class callback (visit_*, insert, ...):
+                              reachable from EVERY body (operators, len(), str(), for, with, ...)
+            <unknown-callee>  a call whose callee is a computed value: may be ANY callable whose value
+                              escapes (every class constructor, every function mentioned outside call
+                              position, every external name mentioned outside call position)
+  edges   body -> everything it calls or mentions.  Dynamic dispatch is over-approximated by NAME:
+          `x.m(...)` with an unknown receiver goes to every in-scope method / property / setattr-bound
+          function called `m` (so `opcode.run(..)` -> every `run` incl. the StackSliceOpcode wrapper,
+          `analysis.analyze(..)` -> every `analyze`), and additionally to the external leaf `method:m`
+          when `m` is a known stdlib method name or no in-scope `m` exists.
+  effect  leaf -> Pure | ReadFixed | ReadInput | WriteUserPath | Effectful by gen/effect_tables.py;
+          anything unknown is Effectful.  Internal bodies carry no effect of their own (Pure).
+
+Nothing here matches on fickling's current shapes: the only fickling-specific inputs are the list of
+source files in scope, the entry-point names and the CLI options that select a non-analysis branch.
+Prints a JSON summary on stdout (stored by the Makefile as _build/gen_callgraph.json); exit status 2
+(and no CallGraph.v update) if anything cannot be handled.
+"""
+import ast
+import hashlib
+import json
+import os
+import sys
+
+sys.path.insert(0, os.path.dirname(os.path.abspath(__file__)))
+from effect_tables import (CALLBACK_BASES, CLASSES, EFFECTFUL, PURE, PURE_DECORATORS, READFIXED,  # noqa: E402
+                           READINPUT, WRITEUSER, METHODS, classify_ext, classify_method)
+
+PYVER = tuple(sys.version_info[:3])
+
+REPO = os.environ.get("FICKLING_REPO", "/repo")
+PKG = "fickling"
+OUT = os.path.normpath(os.path.join(os.path.dirname(os.path.abspath(__file__)), "..", "coq", "gen"))
+
+# ---- the scope of the claim (the only fickling-specific configuration) ----
+# module -> None (everything) | set of top-level names in scope
+SCOPE = {
+    "fickle": None, "analysis": None, "tracing": None, "cli": None, "exception": None,
+    "ml": {"MLAllowlist"},            # FicklingMLUnpickler really unpickles: not an analysis
+    "polyglot": {"check_pickle"},
+}
+# "mod.Class.*" = every method of the class
+ENTRY_POINTS = [
+    "fickle.Pickled.load", "fickle.StackedPickle.load", "fickle.Pickled.ast", "fickle.Interpreter.*",
+    "fickle.Pickled.properties", "fickle.Pickled.has_import", "fickle.Pickled.has_call",
+    "fickle.Pickled.has_non_setstate_call", "fickle.Pickled.unsafe_imports",
+    "fickle.Pickled.non_standard_imports", "tracing.Trace.run", "analysis.check_safety",
+    "analysis.is_likely_safe", "analysis.Analyzer.analyze", "analysis.AnalysisContext.analyze",
+    "cli.main", "polyglot.check_pickle",
+]
+# CLI options whose presence selects a branch that is NOT an analysis entry point (value assumed)
+ENTRY_ASSUME = {"cli.main": {"inject": None, "create": None}}
+
+SENTINEL = "<sentinel:non-entry-that-calls-eval>"
+CTOR = ("__init__", "__new__")
+NOT_IMPLICIT = ("__init__", "__new__", "__init_subclass__")
+
+
+class Fail(Exception):
+    pass
+
+
+class Module:
+    def __init__(self, name, path, include, in_scope):
+        self.name, self.path, self.include, self.in_scope = name, path, include, in_scope
+        self.src = open(path, encoding="utf-8").read()
+        self.tree = ast.parse(self.src)
+        self.bind = {}      # name -> [binding]
+        self.body = None    # Func of the module-level body
+
+
+class Class:
+    def __init__(self, qual, module, node):
+        self.qual, self.module, self.node = qual, module, node
+        self.members = {}   # name -> [binding]
+        self.bases = []     # Class | str (external dotted) | None (unresolved => unknown external)
+        self.meta = []
+        self.subs = []
+
+
+class Func:
+    def __init__(self, qual, module, node, cls=None, parent=None, kind="function"):
+        self.qual, self.module, self.node, self.cls, self.parent, self.kind = qual, module, node, cls, parent, kind
+        self.params, self.defaults = [], {}
+        self.assigns = {}        # local name -> [value expr | None]
+        self.nested = {}         # name -> Func
+        self.local_imports = {}  # name -> [binding]
+        self.deco = set()
+        self.vararg = False
+
+    def __repr__(self):
+        return f"<{self.qual}>"
+
+
+def block_children(stmts):
+    """statements of a body, flattened through compound statements but not into def/class/lambda"""
+    for s in stmts:
+        yield s
+        if isinstance(s, (ast.FunctionDef, ast.AsyncFunctionDef, ast.ClassDef)):
+            continue
+        if isinstance(s, ast.If):
+            v = version_test(s.test)
+            if v is not None:
+                yield from block_children(s.body if v else s.orelse)
+                continue
+        for field in ("body", "orelse", "finalbody"):
+            sub = getattr(s, field, None)
+            if isinstance(sub, list) and sub and isinstance(sub[0], ast.stmt):
+                yield from block_children(sub)
+        if isinstance(s, ast.Try) or s.__class__.__name__ == "TryStar":
+            for h in s.handlers:
+                yield from block_children(h.body)
+        if isinstance(s, ast.Match) if hasattr(ast, "Match") else False:
+            for c in s.cases:
+                yield from block_children(c.body)
+
+
+def version_test(t):
+    """`sys.version_info <op> (a, b, ..)` decided for the interpreter that runs fickling (this one)"""
+    if isinstance(t, ast.Compare) and len(t.ops) == 1 and isinstance(t.comparators[0], ast.Tuple) and \
+            all(isinstance(e, ast.Constant) and isinstance(e.value, int) for e in t.comparators[0].elts):
+        left = t.left
+        named = (isinstance(left, ast.Attribute) and left.attr == "version_info" and
+                 isinstance(left.value, ast.Name) and left.value.id == "sys") or \
+                (isinstance(left, ast.Name) and left.id == "version_info")
+        if not named:
+            return None
+        rhs = tuple(e.value for e in t.comparators[0].elts)
+        op = t.ops[0]
+        import operator as o
+        table = {ast.Lt: o.lt, ast.LtE: o.le, ast.Gt: o.gt, ast.GtE: o.ge, ast.Eq: o.eq, ast.NotEq: o.ne}
+        fn = table.get(type(op))
+        return None if fn is None else bool(fn(PYVER, rhs))
+    return None
+
+
+def own_nodes(root_stmts_or_expr):
+    """all AST nodes of a body without descending into nested def / lambda / class bodies"""
+    stack = list(root_stmts_or_expr) if isinstance(root_stmts_or_expr, list) else [root_stmts_or_expr]
+    while stack:
+        n = stack.pop()
+        yield n
+        for c in ast.iter_child_nodes(n):
+            if isinstance(c, (ast.FunctionDef, ast.AsyncFunctionDef, ast.Lambda, ast.ClassDef)):
+                yield c  # the definition node itself, not its inside
+                continue
+            stack.append(c)
+
+
+class Extractor:
+    def __init__(self):
+        self.modules = {}
+        self.classes = []
+        self.funcs = []            # in-scope bodies (nodes)
+        self.lambda_of = {}        # id(ast.Lambda) -> Func
+        self.func_of = {}          # id(ast.FunctionDef) -> Func
+        self.global_attrs = {}     # attr name -> [Func] bound through setattr / attribute assignment
+        self.edges = {}            # node name -> set(node name)
+        self.leaf_eff = {}         # leaf name -> class
+        self.escaped = set()       # node names that may be the target of an unknown callee
+        self.callsites = {}        # Func -> [(caller Func, ast.Call, skip_first)]
+        self.open_calls = []       # (Func, ast.Call)
+        self.pruned = []
+        self.resolving = set()
+        self.strip = False
+        self.notes = []
+
+    # ------------------------------------------------------------------ loading
+    def load(self):
+        d = os.path.join(REPO, PKG)
+        if not os.path.isdir(d):
+            raise Fail(f"{d} not found")
+        for fn in sorted(os.listdir(d)):
+            if not fn.endswith(".py"):
+                continue
+            short = fn[:-3]
+            name = PKG if short == "__init__" else f"{PKG}.{short}"
+            in_scope = short in SCOPE
+            self.modules[name] = Module(name, os.path.join(d, fn), SCOPE.get(short), in_scope)
+        for short in SCOPE:
+            if f"{PKG}.{short}" not in self.modules:
+                raise Fail(f"source in scope is missing: {PKG}/{short}.py")
+        for m in self.modules.values():
+            self.collect_module(m)
+        for c in self.classes:
+            self.link_class(c)
+
+    def short(self, m):
+        return m.name[len(PKG) + 1:] if m.name != PKG else "__init__"
+
+    def included(self, m, name):
+        return m.in_scope and (m.include is None or name in m.include)
+
+    def collect_module(self, m):
+        body = Func(f"{self.short(m)}.<module>", m, m.tree, kind="module")
+        m.body = body
+        if m.in_scope:
+            self.funcs.append(body)
+        for s in block_children(m.tree.body):
+            self.collect_binding(s, m.bind, m, owner_func=body, cls=None)
+        for n in own_nodes(m.tree.body):
+            if isinstance(n, ast.comprehension):
+                self.bind_target(n.target, None, m.bind)
+            elif isinstance(n, ast.NamedExpr):
+                self.bind_target(n.target, n.value, m.bind)
+
+    def add_bind(self, table, name, b):
+        table.setdefault(name, []).append(b)
+
+    def collect_binding(self, s, table, m, owner_func, cls):
+        """record what a statement binds in `table` (module / class / function level)"""
+        if isinstance(s, (ast.FunctionDef, ast.AsyncFunctionDef)):
+            top = owner_func.kind == "module" and cls is None
+            if owner_func.kind == "module" and not self.included(m, cls.node.name if cls else s.name):
+                self.add_bind(table, s.name, ("oos", f"{m.name}.{s.name}"))
+                return
+            prefix = cls.qual if cls else (owner_func.qual[:-len(".<module>")] if owner_func.kind == "module"
+                                           else owner_func.qual + ".<locals>")
+            f = Func(f"{prefix}.{s.name}", m, s, cls=cls if owner_func.kind == "module" else None,
+                     parent=None if owner_func.kind == "module" else owner_func)
+            # several defs of one name (property getter / setter, overloads, if/else versions) stay distinct
+            n_same = sum(1 for g in self.funcs if g.qual == f.qual or g.qual.startswith(f.qual + "#"))
+            if n_same:
+                f.qual += f"#{n_same + 1}"
+            self.setup_func(f)
+            self.add_bind(table, s.name, ("func", f))
+            del top
+        elif isinstance(s, ast.ClassDef):
+            if owner_func.kind != "module" or cls is not None:
+                raise Fail(f"{m.name}:{s.lineno}: nested class definitions are not supported (fail closed)")
+            if not self.included(m, s.name):
+                self.add_bind(table, s.name, ("oos", f"{m.name}.{s.name}"))
+                return
+            c = Class(f"{self.short(m)}.{s.name}", m, s)
+            self.classes.append(c)
+            self.add_bind(table, s.name, ("class", c))
+            for cs in block_children(s.body):
+                self.collect_binding(cs, c.members, m, owner_func, c)
+        elif isinstance(s, ast.Import):
+            for a in s.names:
+                if a.asname:
+                    self.add_bind(table, a.asname, ("mod", a.name))
+                else:
+                    self.add_bind(table, a.name.split(".")[0], ("mod", a.name.split(".")[0]))
+        elif isinstance(s, ast.ImportFrom):
+            base = s.module or ""
+            if s.level:
+                pkg = m.name.split(".")
+                if not m.path.endswith("__init__.py"):
+                    pkg = pkg[:-1]
+                pkg = pkg[:len(pkg) - (s.level - 1)]
+                base = ".".join(pkg + ([s.module] if s.module else []))
+            for a in s.names:
+                if a.name == "*":
+                    if m.in_scope:
+                        raise Fail(f"{m.name}:{s.lineno}: star import (fail closed)")
+                    continue
+                self.add_bind(table, a.asname or a.name, ("from", base, a.name))
+        elif isinstance(s, ast.Assign):
+            for t in s.targets:
+                self.bind_target(t, s.value, table)
+        elif isinstance(s, ast.AnnAssign):
+            if s.value is not None:
+                self.bind_target(s.target, s.value, table)
+        elif isinstance(s, ast.AugAssign):
+            self.bind_target(s.target, None, table)
+        elif isinstance(s, (ast.For, ast.AsyncFor)):
+            self.bind_target(s.target, None, table)
+        elif isinstance(s, (ast.With, ast.AsyncWith)):
+            for it in s.items:
+                if it.optional_vars is not None:
+                    self.bind_target(it.optional_vars, None, table)
+        elif isinstance(s, ast.Try):
+            for h in s.handlers:
+                if h.name:
+                    self.add_bind(table, h.name, ("expr", None))
+
+    def bind_target(self, t, value, table):
+        if isinstance(t, ast.Name):
+            self.add_bind(table, t.id, ("expr", value))
+        elif isinstance(t, (ast.Tuple, ast.List)):
+            for e in t.elts:
+                self.bind_target(e, None, table)
+        elif isinstance(t, ast.Starred):
+            self.bind_target(t.value, None, table)
+
+    def setup_func(self, f):
+        self.funcs.append(f)
+        self.func_of[id(f.node)] = f
+        a = f.node.args
+        allargs = list(a.posonlyargs) + list(a.args)
+        f.params = [x.arg for x in allargs] + [x.arg for x in a.kwonlyargs]
+        f.pos_params = [x.arg for x in allargs]
+        nd = len(a.defaults)
+        for x, d in zip(allargs[len(allargs) - nd:], a.defaults):
+            f.defaults[x.arg] = d
+        for x, d in zip(a.kwonlyargs, a.kw_defaults):
+            if d is not None:
+                f.defaults[x.arg] = d
+        if a.vararg:
+            f.params.append(a.vararg.arg)
+            f.vararg = True
+        if a.kwarg:
+            f.params.append(a.kwarg.arg)
+            f.vararg = True
+        if isinstance(f.node, ast.Lambda):
+            body = [f.node.body]
+        else:
+            body = f.node.body
+            for d in f.node.decorator_list:
+                if isinstance(d, ast.Name) and d.id in ("staticmethod", "classmethod", "property"):
+                    f.deco.add(d.id)
+                if isinstance(d, ast.Attribute) and d.attr in ("setter", "getter", "deleter"):
+                    f.deco.add("property")
+        # local bindings
+        table = {}
+        if not isinstance(f.node, ast.Lambda):
+            for s in block_children(body):
+                if isinstance(s, (ast.FunctionDef, ast.AsyncFunctionDef, ast.ClassDef, ast.Import, ast.ImportFrom)):
+                    t2 = {}
+                    self.collect_binding(s, t2, f.module, owner_func=f, cls=None)
+                    for k, bs in t2.items():
+                        for b in bs:
+                            if b[0] == "func":
+                                f.nested[k] = b[1]
+                            else:
+                                f.local_imports.setdefault(k, []).append(b)
+                else:
+                    self.collect_binding(s, table, f.module, owner_func=f, cls=None)
+        for n in own_nodes(body):
+            if isinstance(n, ast.Lambda):
+                lf = Func(f"{f.qual}.<lambda@{n.lineno}:{n.col_offset}>", f.module, n, parent=f, kind="lambda")
+                self.lambda_of[id(n)] = lf
+                self.setup_func(lf)
+            elif isinstance(n, ast.NamedExpr):
+                self.bind_target(n.target, n.value, table)
+            elif isinstance(n, ast.comprehension):
+                self.bind_target(n.target, None, table)
+        for k, bs in table.items():
+            f.assigns[k] = [b[1] for b in bs]
+
+    # lambdas at module / class level
+    def setup_toplevel_lambdas(self):
+        for m in self.modules.values():
+            if not m.in_scope:
+                continue
+            for n in own_nodes(m.tree.body):
+                if isinstance(n, ast.ClassDef):
+                    if self.included(m, n.name):
+                        for k in own_nodes(n.body):
+                            if isinstance(k, ast.Lambda):
+                                self._toplambda(m, k)
+                elif isinstance(n, ast.Lambda):
+                    self._toplambda(m, n)
+
+    def _toplambda(self, m, n):
+        lf = Func(f"{self.short(m)}.<lambda@{n.lineno}:{n.col_offset}>", m, n, parent=None, kind="lambda")
+        self.lambda_of[id(n)] = lf
+        self.setup_func(lf)
+
+    def link_class(self, c):
+        ctx = Ctx(c.module.body, None)
+        self.strip = True   # Base[T] names the class Base
+        try:
+            self._link_class(c, ctx)
+        finally:
+            self.strip = False
+
+    def _link_class(self, c, ctx):
+        for b in c.node.bases:
+            ts = self.resolve(b, ctx, strip_subscript=True)
+            got = False
+            for t in ts:
+                if t[0] == "class":
+                    c.bases.append(t[1])
+                    t[1].subs.append(c)
+                    got = True
+                elif t[0] in ("ext", "xmod"):
+                    c.bases.append(t[1])
+                    got = True
+            if not got:
+                c.bases.append(None)
+        for kw in c.node.keywords:
+            if kw.arg == "metaclass":
+                for t in self.resolve(kw.value, ctx):
+                    if t[0] == "class":
+                        c.meta.append(t[1])
+                    else:
+                        c.bases.append(None)
+            else:
+                c.bases.append(None)  # class keyword arguments reach __init_subclass__: unknown protocol
+
+    # ------------------------------------------------------------------ class helpers
+    def ancestors(self, c, seen=None):
+        seen = seen if seen is not None else []
+        for b in c.bases:
+            if isinstance(b, Class) and b not in seen:
+                seen.append(b)
+                self.ancestors(b, seen)
+        return seen
+
+    def descendants(self, c, seen=None):
+        seen = seen if seen is not None else []
+        for s in c.subs:
+            if s not in seen:
+                seen.append(s)
+                self.descendants(s, seen)
+        return seen
+
+    def ext_bases(self, c):
+        out = []
+        for k in [c] + self.ancestors(c):
+            for b in k.bases:
+                if not isinstance(b, Class):
+                    out.append(b)
+        return out
+
+    def members(self, classes, name):
+        """bindings of `name` in the given classes, as resolved targets"""
+        out = []
+        for k in classes:
+            for b in k.members.get(name, []):
+                out += self.resolve_binding(b, Ctx(k.module.body, k), 0)
+        return out
+
+    def ctor_targets(self, c, down=False):
+        ks = [c] + self.ancestors(c)
+        if down:
+            for d in self.descendants(c):
+                for k in [d] + self.ancestors(d):
+                    if k not in ks:
+                        ks.append(k)
+        out = []
+        for n in CTOR:
+            out += [t for t in self.members(ks, n) if t[0] == "func"]
+        for k in ks:
+            for b in k.bases:
+                if b is None:
+                    out.append(("ext", "<unresolved-base-class>"))
+                elif not isinstance(b, Class):
+                    out.append(("ext", b))
+            for mc in k.meta:
+                out += [t for t in self.members([mc] + self.ancestors(mc), "__call__") if t[0] == "func"]
+        return out
+
+    # ------------------------------------------------------------------ resolution
+    def resolve_binding(self, b, ctx, depth):
+        kind = b[0]
+        if kind == "func":
+            return [("func", b[1])]
+        if kind == "class":
+            return [("class", b[1])]
+        if kind == "oos":
+            return [("oos", b[1])]
+        if kind == "mod":
+            return [self.module_target(b[1])]
+        if kind == "from":
+            return self.resolve_from(b[1], b[2], depth)
+        if kind == "expr":
+            if b[1] is None or depth > 6:
+                return [("unk",)]
+            return self.resolve(b[1], ctx, depth + 1)
+        raise Fail(f"binding {b!r}")
+
+    def module_target(self, dotted):
+        if dotted == PKG or dotted.startswith(PKG + "."):
+            if dotted in self.modules:
+                return ("imod", self.modules[dotted])
+            return ("oos", dotted)
+        return ("xmod", dotted)
+
+    def resolve_from(self, base, name, depth):
+        if base == PKG or base.startswith(PKG + "."):
+            sub = f"{base}.{name}"
+            if sub in self.modules:
+                return [("imod", self.modules[sub])]
+            if base not in self.modules:
+                return [("oos", sub)]
+            m = self.modules[base]
+            if name not in m.bind or depth > 6:
+                return [("oos", sub)]
+            out = []
+            for b in m.bind[name]:
+                out += self.resolve_binding(b, Ctx(m.body, None), depth + 1)
+            return out
+        return [("ext", f"{base}.{name}")]
+
+    def resolve_name(self, name, ctx, depth):
+        f = ctx.func
+        while f is not None and f.kind != "module":
+            if name in f.nested:
+                return [("func", f.nested[name])]
+            if name in f.params:
+                if f.cls is not None and f.kind == "function" and "staticmethod" not in f.deco \
+                        and f.pos_params and name == f.pos_params[0]:
+                    is_cls = "classmethod" in f.deco or f.node.name in ("__new__", "__init_subclass__",
+                                                                         "__class_getitem__")
+                    return [("cls" if is_cls else "self", f.cls)]
+                return [("unk",)]
+            if name in f.local_imports:
+                out = []
+                for b in f.local_imports[name]:
+                    out += self.resolve_binding(b, ctx, depth)
+                return out
+            if name in f.assigns:
+                vals = f.assigns[name]
+                key = (id(f), name)
+                if any(v is None for v in vals) or depth > 6 or key in self.resolving:
+                    return [("unk",)]
+                self.resolving.add(key)
+                try:
+                    out = []
+                    for v in vals:
+                        out += self.resolve(v, Ctx(f, None), depth + 1)
+                finally:
+                    self.resolving.discard(key)
+                return out
+            f = f.parent
+        if ctx.cls is not None and name in ctx.cls.members:
+            out = []
+            for b in ctx.cls.members[name]:
+                out += self.resolve_binding(b, ctx, depth)
+            return out
+        m = ctx.func.module
+        if name in m.bind:
+            out = []
+            for b in m.bind[name]:
+                out += self.resolve_binding(b, Ctx(m.body, None), depth)
+            return out
+        return [("ext", f"builtins.{name}")]
+
+    def resolve(self, e, ctx, depth=0, strip_subscript=False):
+        if isinstance(e, ast.Name):
+            return dedupe(self.resolve_name(e.id, ctx, depth))
+        if isinstance(e, ast.Attribute):
+            out = []
+            for b in self.resolve(e.value, ctx, depth, strip_subscript):
+                out += self.attr_of(b, e.attr, ctx, depth)
+            return dedupe(out)
+        if isinstance(e, ast.Constant):
+            return [("data",)]
+        if isinstance(e, (ast.List, ast.Tuple, ast.Dict, ast.Set, ast.JoinedStr, ast.ListComp, ast.DictComp,
+                          ast.SetComp, ast.GeneratorExp, ast.Compare, ast.BinOp, ast.UnaryOp)):
+            return [("data",)] if not isinstance(e, (ast.BinOp, ast.UnaryOp)) else [("unk",)]
+        if isinstance(e, ast.Lambda):
+            return [("func", self.lambda_of[id(e)])]
+        if isinstance(e, ast.Subscript) and (strip_subscript or self.strip):
+            return self.resolve(e.value, ctx, depth, strip_subscript)
+        if isinstance(e, ast.Call):
+            if isinstance(e.func, ast.Name) and e.func.id == "super" and \
+                    self.resolve_name("super", ctx, depth) == [("ext", "builtins.super")]:
+                f = ctx.func
+                while f is not None and f.cls is None:
+                    f = f.parent
+                if f is not None:
+                    return [("super", f.cls)]
+            return [("unk",)]
+        if isinstance(e, ast.IfExp):
+            return dedupe(self.resolve(e.body, ctx, depth) + self.resolve(e.orelse, ctx, depth))
+        if isinstance(e, ast.BoolOp):
+            out = []
+            for v in e.values:
+                out += self.resolve(v, ctx, depth)
+            return dedupe(out)
+        if isinstance(e, ast.NamedExpr):
+            return self.resolve(e.value, ctx, depth)
+        return [("unk",)]
+
+    def attr_of(self, base, attr, ctx, depth):
+        k = base[0]
+        if k == "imod":
+            m = base[1]
+            sub = f"{m.name}.{attr}"
+            if sub in self.modules:
+                return [("imod", self.modules[sub])]
+            if attr in m.bind:
+                out = []
+                for b in m.bind[attr]:
+                    out += self.resolve_binding(b, Ctx(m.body, None), depth + 1)
+                return out
+            return [("oos", sub)]
+        if k in ("xmod", "ext"):
+            return [("ext", f"{base[1]}.{attr}")]
+        if k == "oos":
+            return [("oos", f"{base[1]}.{attr}")]
+        if k == "class":
+            c = base[1]
+            found = self.members([c] + self.ancestors(c), attr)
+            for mc in c.meta:
+                found += self.members([mc] + self.ancestors(mc), attr)
+            if found:
+                return found
+            if attr in ("__name__", "__qualname__", "__module__", "__doc__", "__dict__", "__mro__", "__bases__"):
+                return [("data",)]
+            if self.ext_bases(c):
+                return [("extmethod", attr)]
+            return [("byname", attr)]
+        if k in ("self", "cls"):
+            c = base[1]
+            if attr == "__class__":
+                return [("cls", c)]
+            ks = [c] + self.ancestors(c)
+            for d in self.descendants(c):
+                for x in [d] + self.ancestors(d):
+                    if x not in ks:
+                        ks.append(x)
+            found = self.members(ks, attr)
+            found += [("func", g) for g in self.global_attrs.get(attr, [])]
+            if any(t[0] == "func" for t in found):
+                # instance data of the same name may shadow: keep the by-name fallback out, methods win
+                return found
+            return [("byname", attr)]
+        if k == "super":
+            c = base[1]
+            found = [t for t in self.members(self.ancestors(c), attr) if t[0] == "func"]
+            if found:
+                return found
+            ext = [b for b in self.ext_bases(c)]
+            if any(b is None for b in ext):
+                return [("ext", f"<unresolved-base-class>.{attr}")]
+            if ext:
+                return [("ext", f"{ext[0]}.{attr}")]
+            return [("ext", f"object.{attr}")]
+        if k == "func":
+            return [("data",)]
+        return [("byname", attr)]
+
+    def by_name(self, attr):
+        out = []
+        for c in self.classes:
+            out += [t for t in self.members([c], attr) if t[0] == "func"]
+        out += [("func", g) for g in self.global_attrs.get(attr, [])]
+        return dedupe(out)
+
+    # ------------------------------------------------------------------ edges
+    def node_name(self, f):
+        return f.qual
+
+    def edge(self, src, dst):
+        self.edges.setdefault(src, set()).add(dst)
+        self.edges.setdefault(dst, set())
+
+    def leaf(self, name, eff):
+        old = self.leaf_eff.get(name)
+        if old is not None and old != eff:
+            eff = max(old, eff, key=CLASSES.index)
+        self.leaf_eff[name] = eff
+        self.edges.setdefault(name, set())
+        return name
+
+    def ext_leaf(self, dotted):
+        return self.leaf(f"ext:{dotted}", classify_ext(dotted))
+
+    def use(self, f, targets, call, node=None):
+        """edges from body f for a resolved reference; call=True for call position"""
+        src = f.qual
+        for t in targets:
+            k = t[0]
+            if k == "func":
+                self.edge(src, t[1].qual)
+                if not call:
+                    self.escaped.add(t[1].qual)
+                elif node is not None:
+                    self.callsites.setdefault(t[1], []).append((f, node, t))
+            elif k in ("class", "cls"):
+                for ct in self.ctor_targets(t[1], down=(k == "cls")):
+                    if ct[0] == "func":
+                        self.edge(src, ct[1].qual)
+                        if call and node is not None:
+                            self.callsites.setdefault(ct[1], []).append((f, node, ("ctor",)))
+                    else:
+                        self.edge(src, self.ext_leaf(ct[1]))
+            elif k == "ext":
+                self.edge(src, self.ext_leaf(t[1]))
+                if not call:
+                    self.escaped.add(f"ext:{t[1]}")
+            elif k == "xmod":
+                self.edge(src, self.leaf(f"module-object:{t[1]}", EFFECTFUL if not call else EFFECTFUL))
+            elif k == "imod":
+                if call:
+                    self.edge(src, "<unknown-callee>")
+            elif k == "oos":
+                m = self.oos_class(t[1])
+                self.edge(src, self.leaf(f"out-of-scope:{t[1]}", m))
+            elif k == "extmethod":
+                self.edge(src, self.leaf(f"method:{t[1]}", classify_method(t[1])))
+            elif k == "byname":
+                internal = self.by_name(t[1])
+                for it in internal:
+                    self.edge(src, it[1].qual)
+                    if not call:
+                        self.escaped.add(it[1].qual)
+                    elif node is not None:
+                        self.callsites.setdefault(it[1], []).append((f, node, t))
+                if call:
+                    if t[1] in METHODS or not internal:
+                        self.edge(src, self.leaf(f"method:{t[1]}", classify_method(t[1])))
+                elif METHODS.get(t[1]) == EFFECTFUL:
+                    self.edge(src, self.leaf(f"method:{t[1]}", EFFECTFUL))
+            elif k in ("self", "super", "data", "unk"):
+                if call:
+                    self.edge(src, "<unknown-callee>")
+            else:
+                raise Fail(f"target {t!r}")
+
+    def oos_class(self, dotted):
+        """an internal name outside the scope: data constants are Pure, anything else Effectful"""
+        parts = dotted.split(".")
+        for i in range(len(parts) - 1, 0, -1):
+            mn = ".".join(parts[:i])
+            if mn in self.modules:
+                m, rest = self.modules[mn], parts[i:]
+                if len(rest) == 1 and rest[0] in m.bind:
+                    bs = m.bind[rest[0]]
+                    if all(b[0] == "expr" and isinstance(b[1], ast.Constant) for b in bs):
+                        return PURE
+                return EFFECTFUL
+        return EFFECTFUL
+
+    def walk_body(self, f):
+        ctx = Ctx(f, None)
+        if f.kind == "module":
+            self.walk_stmts(f, f.node.body, ctx)
+        elif f.kind == "lambda":
+            a = f.node.args
+            for d in list(a.defaults) + [d for d in a.kw_defaults if d is not None]:
+                pass  # evaluated in the enclosing body (visited there)
+            self.visit(f, f.node.body, ctx)
+        else:
+            self.walk_stmts(f, f.node.body, ctx)
+            for d in f.node.decorator_list:
+                self.decorator(f, d, Ctx(f.parent or f.module.body, f.cls))
+        self.edge(f.qual, "<implicit>")
+
+    def decorator(self, f, d, ctx):
+        ts = self.resolve(d.func if isinstance(d, ast.Call) else d, ctx)
+        ok = all((t[0] == "ext" and t[1] in PURE_DECORATORS) or t[0] == "data" for t in ts)
+        if not ok:
+            self.use(f, ts, call=True)
+            self.edge(f.qual, "<unknown-callee>")
+
+    def assume(self, f):
+        return ENTRY_ASSUME.get(f.qual)
+
+    def walk_stmts(self, f, stmts, ctx):
+        for s in stmts:
+            self.walk_stmt(f, s, ctx)
+
+    def walk_stmt(self, f, s, ctx):
+        if isinstance(s, ast.If) and version_test(s.test) is not None:
+            self.visit(f, s.test, ctx)
+            self.walk_stmts(f, s.body if version_test(s.test) else s.orelse, ctx)
+            return
+        if isinstance(s, ast.If) and self.assume(f) is not None:
+            v = peval(s.test, self.assume(f))
+            self.visit(f, s.test, ctx)
+            if v is True:
+                if s.orelse:
+                    self.pruned.append(f"{f.qual}: else-branch of line {s.lineno} (assumed {self.assume(f)})")
+                self.walk_stmts(f, s.body, ctx)
+                return
+            if v is False:
+                self.pruned.append(f"{f.qual}: then-branch of line {s.lineno} (assumed {self.assume(f)})")
+                self.walk_stmts(f, s.orelse, ctx)
+                return
+            self.walk_stmts(f, s.body, ctx)
+            self.walk_stmts(f, s.orelse, ctx)
+            return
+        if isinstance(s, (ast.FunctionDef, ast.AsyncFunctionDef)):
+            g = self.func_of.get(id(s))
+            for d in s.decorator_list:
+                self.visit(f, d, ctx)
+            for d in list(s.args.defaults) + [d for d in s.args.kw_defaults if d is not None]:
+                self.visit(f, d, ctx)
+            if g is not None and f.kind != "module":
+                self.edge(f.qual, g.qual)       # a nested function is a value of its definer
+                self.escaped.add(g.qual)
+            return
+        if isinstance(s, ast.ClassDef):
+            cs = [c for c in self.classes if c.node is s]
+            if not cs:
+                return  # out of scope
+            c = cs[0]
+            for b in s.bases:
+                self.visit(f, b, ctx)
+            for kw in s.keywords:
+                self.visit(f, kw.value, ctx)
+            for d in s.decorator_list:
+                self.visit(f, d, ctx)
+                self.use(f, self.resolve(d, ctx), call=True)
+            # class creation calls every __init_subclass__ above it and the metaclass
+            for t in self.members(self.ancestors(c), "__init_subclass__"):
+                self.use(f, [t], call=True)
+            for mc in c.meta:
+                for n in CTOR:
+                    for t in self.members([mc] + self.ancestors(mc), n):
+                        self.use(f, [t], call=True)
+            for b in self.ext_bases(c):
+                self.edge(f.qual, self.ext_leaf(f"{b}.__init_subclass__" if b else "<unresolved-base-class>"))
+            self.walk_stmts(f, s.body, Ctx(f, c))
+            return
+        if isinstance(s, (ast.Import, ast.ImportFrom)):
+            if f.kind != "module":
+                self.local_import(f, s)
+            return
+        # generic: visit expressions of this statement, recurse into blocks
+        for field, val in ast.iter_fields(s):
+            if isinstance(val, list):
+                if val and isinstance(val[0], ast.stmt):
+                    self.walk_stmts(f, val, ctx)
+                else:
+                    for x in val:
+                        if isinstance(x, ast.excepthandler):
+                            if x.type is not None:
+                                self.visit(f, x.type, ctx)
+                            self.walk_stmts(f, x.body, ctx)
+                        elif isinstance(x, ast.AST):
+                            if x.__class__.__name__ == "match_case":
+                                self.visit(f, x.pattern, ctx)
+                                if x.guard is not None:
+                                    self.visit(f, x.guard, ctx)
+                                self.walk_stmts(f, x.body, ctx)
+                            else:
+                                self.visit(f, x, ctx)
+            elif isinstance(val, ast.AST):
+                if field == "annotation" or (field == "returns"):
+                    continue
+                self.visit(f, val, ctx)
+
+    def local_import(self, f, s):
+        """an import statement inside a function body: loads fixed code"""
+        if isinstance(s, ast.Import):
+            names = [a.name for a in s.names]
+        else:
+            names = [s.module or "."]
+        for n in names:
+            if n == PKG or n.startswith(PKG + ".") or (isinstance(s, ast.ImportFrom) and s.level):
+                tgt = None
+                for m in self.modules.values():
+                    if m.name == n and m.in_scope:
+                        tgt = m
+                if tgt is not None:
+                    self.edge(f.qual, tgt.body.qual)
+                else:
+                    self.edge(f.qual, self.leaf(f"import:{n}", EFFECTFUL))
+            else:
+                top = n.split(".")[0]
+                eff = READFIXED if top in sys.stdlib_module_names or top == "stdlib_list" else EFFECTFUL
+                self.edge(f.qual, self.leaf(f"import:{n}", eff))
+
+    def visit(self, f, e, ctx):
+        """an expression evaluated in body f"""
+        if e is None:
+            return
+        if isinstance(e, ast.Call):
+            self.visit_call(f, e, ctx)
+            return
+        if isinstance(e, ast.Lambda):
+            g = self.lambda_of[id(e)]
+            self.edge(f.qual, g.qual)
+            self.escaped.add(g.qual)
+            for d in list(e.args.defaults) + [d for d in e.args.kw_defaults if d is not None]:
+                self.visit(f, d, ctx)
+            return
+        if isinstance(e, (ast.Name, ast.Attribute)):
+            self.visit_ref(f, e, ctx, call=False)
+            return
+        if isinstance(e, (ast.ListComp, ast.SetComp, ast.GeneratorExp, ast.DictComp)):
+            for g in e.generators:
+                self.visit(f, g.iter, ctx)
+                for c in g.ifs:
+                    self.visit(f, c, ctx)
+            if isinstance(e, ast.DictComp):
+                self.visit(f, e.key, ctx)
+                self.visit(f, e.value, ctx)
+            else:
+                self.visit(f, e.elt, ctx)
+            return
+        for c in ast.iter_child_nodes(e):
+            if isinstance(c, (ast.expr_context, ast.operator, ast.unaryop, ast.boolop, ast.cmpop)):
+                continue
+            if isinstance(c, ast.comprehension):
+                self.visit(f, c.iter, ctx)
+                for i in c.ifs:
+                    self.visit(f, i, ctx)
+                continue
+            if isinstance(c, ast.keyword):
+                self.visit(f, c.value, ctx)
+                continue
+            if isinstance(c, ast.arguments):
+                continue
+            self.visit(f, c, ctx)
+
+    def visit_ref(self, f, e, ctx, call, node=None):
+        """a Name / Attribute chain in Load, Store or Del context"""
+        if isinstance(e, ast.Name):
+            if isinstance(e.ctx, ast.Load):
+                self.use(f, self.resolve(e, ctx), call, node)
+            return
+        ts = self.resolve(e, ctx)
+        static = all(t[0] in ("func", "class", "imod", "xmod", "ext", "oos", "data") for t in ts) and \
+            self.is_static_chain(e.value, ctx)
+        if not isinstance(e.ctx, ast.Load):
+            # attribute store / delete: property setters of that name (by name), receiver is evaluated
+            ts = [t for t in ts if t[0] in ("func", "byname")]
+            self.use(f, ts, call=False)
+            if ts and all(t[0] == "byname" for t in ts) and not self.by_name(e.attr):
+                pass
+            self.visit(f, e.value, ctx)
+            return
+        self.use(f, ts, call, node)
+        if not static:
+            self.visit(f, e.value, ctx)
+
+    def is_static_chain(self, e, ctx):
+        """the receiver is a module / class / external dotted name: nothing is evaluated by naming it"""
+        ts = self.resolve(e, ctx)
+        return bool(ts) and all(t[0] in ("imod", "xmod", "ext", "oos", "class") for t in ts) and \
+            isinstance(e, (ast.Name, ast.Attribute))
+
+    def visit_call(self, f, e, ctx):
+        fn = e.func
+        for a in e.args:
+            self.visit(f, a.value if isinstance(a, ast.Starred) else a, ctx)
+        for k in e.keywords:
+            self.visit(f, k.value, ctx)
+        if isinstance(fn, (ast.Name, ast.Attribute)):
+            ts = self.resolve(fn, ctx)
+            special = [t for t in ts if t[0] == "ext" and t[1] in SPECIAL]
+            if special:
+                rest = [t for t in ts if t not in special]
+                for t in special:
+                    SPECIAL[t[1]](self, f, e, ctx)
+                if rest:
+                    self.use(f, rest, call=True, node=e)
+                return
+            # evaluate the receiver
+            if isinstance(fn, ast.Attribute):
+                self.use(f, ts, call=True, node=e)
+                if not self.is_static_chain(fn.value, ctx):
+                    self.visit(f, fn.value, ctx)
+            else:
+                self.use(f, ts, call=True, node=e)
+            return
+        if isinstance(fn, ast.Lambda):
+            self.edge(f.qual, self.lambda_of[id(fn)].qual)
+            return
+        # computed callee
+        self.visit(f, fn, ctx)
+        self.edge(f.qual, "<unknown-callee>")
+
+    # ---- argument-dependent builtins ----
+    def sp_attr(self, which):
+        def h(self, f, e, ctx):
+            lit = len(e.args) >= 2 and isinstance(e.args[1], ast.Constant) and isinstance(e.args[1].value, str) \
+                and not any(isinstance(a, ast.Starred) for a in e.args)
+            if not lit:
+                self.edge(f.qual, self.leaf(f"dyn:{which}-computed-name", EFFECTFUL))
+                return
+            self.edge(f.qual, self.leaf(f"ext:builtins.{which}", PURE))
+            name = e.args[1].value
+            if which == "setattr" and len(e.args) == 3:
+                self.bind_attr(f, e.args[0], name, e.args[2], ctx)
+            if which == "getattr":
+                # a literal getattr is an attribute access
+                fake = ast.Attribute(value=e.args[0], attr=name, ctx=ast.Load())
+                ast.copy_location(fake, e)
+                self.use(f, self.resolve(fake, ctx), call=False)
+        return h
+
+    def bind_attr(self, f, obj, name, value, ctx):
+        """obj.name = value  /  setattr(obj, "name", value): remember functions bound that way"""
+        vs = [t for t in self.resolve(value, ctx) if t[0] == "func"]
+        if not vs:
+            return
+        os_ = self.resolve(obj, ctx)
+        for v in vs:
+            placed = False
+            for o in os_:
+                if o[0] in ("cls", "class"):
+                    o[1].members.setdefault(name, []).append(("func", v[1]))
+                    placed = True
+            if not placed:
+                self.global_attrs.setdefault(name, []).append(v[1])
+
+    def sp_open(self, f, e, ctx):
+        self.open_calls.append((f, e))
+
+    # ------------------------------------------------------------------ open() classification
+    def classify_open(self, f, e):
+        if any(isinstance(a, ast.Starred) for a in e.args) or any(k.arg is None for k in e.keywords):
+            return "open:computed-arguments", EFFECTFUL
+        path = e.args[0] if e.args else next((k.value for k in e.keywords if k.arg == "file"), None)
+        mode = e.args[1] if len(e.args) > 1 else next((k.value for k in e.keywords if k.arg == "mode"), None)
+        if path is None:
+            return "open:no-path", EFFECTFUL
+        if mode is None:
+            m = "r"
+        elif isinstance(mode, ast.Constant) and isinstance(mode.value, str):
+            m = mode.value
+        else:
+            return "open:computed-mode", EFFECTFUL
+        writing = any(c in m for c in "wax+")
+        kind = self.user_path(path, f, set())
+        if kind == "user":
+            return ("open:write-user-named-path", WRITEUSER) if writing else ("open:read-user-named-path", READINPUT)
+        if kind == "lit" and not writing:
+            return "open:read-literal-path", READFIXED
+        if kind == "lit":
+            return "open:write-literal-path", EFFECTFUL
+        return ("open:write-computed-path" if writing else "open:read-computed-path"), EFFECTFUL
+
+    def user_path(self, x, f, seen):
+        """'user' = named by the caller (API parameter / parsed CLI argument), 'lit' = literal, None = computed"""
+        if isinstance(x, ast.Constant) and isinstance(x.value, str):
+            return "lit"
+        if isinstance(x, ast.Name):
+            g = f
+            while g is not None and g.kind != "module":
+                if x.id in g.params:
+                    return self.param_ok(g, x.id, seen)
+                if x.id in g.assigns:
+                    vals = g.assigns[x.id]
+                    if any(v is None for v in vals):
+                        return None
+                    return combine([self.user_path(v, g, seen) for v in vals])
+                g = g.parent
+            bs = f.module.bind.get(x.id, [])
+            if bs and all(b[0] == "expr" and isinstance(b[1], ast.Constant) and isinstance(b[1].value, str) for b in bs):
+                return "lit"
+            return None
+        if isinstance(x, ast.Attribute) and isinstance(x.value, ast.Name):
+            g = f
+            while g is not None and g.kind != "module":
+                if x.value.id in g.assigns:
+                    vals = g.assigns[x.value.id]
+                    if vals and all(isinstance(v, ast.Call) and isinstance(v.func, ast.Attribute) and
+                                    v.func.attr in ("parse_args", "parse_known_args") for v in vals):
+                        return "user"
+                    return None
+                g = g.parent
+            return None
+        if isinstance(x, ast.BoolOp):
+            return combine([self.user_path(v, f, seen) for v in x.values])
+        if isinstance(x, ast.IfExp):
+            return combine([self.user_path(x.body, f, seen), self.user_path(x.orelse, f, seen)])
+        return None
+
+    def param_ok(self, g, name, seen):
+        if (g.qual, name) in seen:
+            return "user"
+        seen = seen | {(g.qual, name)}
+        if g.qual in self.escaped or g.kind == "lambda":
+            return None
+        res = ["user"]
+        for caller, call, how in self.callsites.get(g, []):
+            if any(isinstance(a, ast.Starred) for a in call.args) or any(k.arg is None for k in call.keywords):
+                return None
+            arg = next((k.value for k in call.keywords if k.arg == name), None)
+            if arg is None:
+                pos = list(g.pos_params)
+                if g.cls is not None and "staticmethod" not in g.deco:
+                    if how[0] == "class" or (how[0] == "func" and isinstance(call.func, ast.Attribute) and
+                                            "classmethod" not in g.deco and
+                                            any(t[0] == "class" for t in self.resolve(call.func.value, Ctx(caller, None)))):
+                        return None  # unbound call through the class: alignment unknown
+                    pos = pos[1:]
+                if name in pos and pos.index(name) < len(call.args):
+                    arg = call.args[pos.index(name)]
+            if arg is None:
+                d = g.defaults.get(name)
+                if d is None or not isinstance(d, ast.Constant):
+                    return None
+                res.append("lit")
+                continue
+            res.append(self.user_path(arg, caller, seen))
+        return combine(res)
+
+    # ------------------------------------------------------------------ build
+    def build(self):
+        self.load()
+        self.setup_toplevel_lambdas()
+        # pass 1: attribute bindings (setattr / x.m = f) must be known before by-name resolution
+        for f in list(self.funcs):
+            body = f.node.body if f.kind != "lambda" else [f.node.body]
+            for n in own_nodes(body if isinstance(body, list) else [body]):
+                if isinstance(n, ast.Assign):
+                    for t in n.targets:
+                        if isinstance(t, ast.Attribute):
+                            self.bind_attr(f, t.value, t.attr, n.value, Ctx(f, None))
+                elif isinstance(n, ast.Call) and isinstance(n.func, ast.Name) and n.func.id == "setattr" \
+                        and len(n.args) == 3 and isinstance(n.args[1], ast.Constant) and isinstance(n.args[1].value, str):
+                    self.bind_attr(f, n.args[0], n.args[1].value, n.args[2], Ctx(f, None))
+        self.edges["<implicit>"] = set()
+        self.edges["<unknown-callee>"] = set()
+        for f in self.funcs:
+            self.edges.setdefault(f.qual, set())
+        for f in self.funcs:
+            self.walk_body(f)
+        # <implicit>: dunder methods + callbacks from external base classes
+        for c in self.classes:
+            ext = self.ext_bases(c)
+            unknown_base = any(b is None or b not in CALLBACK_BASES and f"builtins.{b}" not in CALLBACK_BASES
+                               for b in ext)
+            preds = [CALLBACK_BASES.get(b) or CALLBACK_BASES.get(f"builtins.{b}") for b in ext if b]
+            for name in c.members:
+                for t in self.members([c], name):
+                    if t[0] != "func":
+                        continue
+                    dunder = name.startswith("__") and name.endswith("__") and name not in NOT_IMPLICIT
+                    if dunder or unknown_base or any(p(name) for p in preds if p):
+                        self.edge("<implicit>", t[1].qual)
+        # <unknown-callee>: every constructor and every escaped callable
+        for c in self.classes:
+            for ct in self.ctor_targets(c):
+                self.edge("<unknown-callee>", ct[1].qual if ct[0] == "func" else self.ext_leaf(ct[1]))
+        for n in sorted(self.escaped):
+            self.edge("<unknown-callee>", n)
+        # open() needs the finished call-site index
+        for f, e in self.open_calls:
+            name, eff = self.classify_open(f, e)
+            self.edge(f.qual, self.leaf(name, eff))
+        # a synthetic NON-entry body that evaluates its input: shows the checker can say "no"
+        self.edge(SENTINEL, self.ext_leaf("builtins.eval"))
+
+    def entry_nodes(self):
+        quals = {f.qual: f for f in self.funcs}
+        out = []
+        for ep in ENTRY_POINTS:
+            if ep.endswith(".*"):
+                cq = ep[:-2]
+                cs = [c for c in self.classes if c.qual == cq]
+                if not cs:
+                    raise Fail(f"entry point class {cq} not found")
+                got = [f.qual for f in self.funcs if f.cls is cs[0]]
+                if not got:
+                    raise Fail(f"entry point class {cq} has no methods")
+                out += got
+            else:
+                got = [q for q in quals if q == ep or q.startswith(ep + "#")]
+                if not got:
+                    raise Fail(f"entry point {ep} not found")
+                out += got
+        return sorted(set(out))
+
+
+class Ctx:
+    def __init__(self, func, cls):
+        self.func, self.cls = func, cls
+
+
+def dedupe(ts):
+    out = []
+    for t in ts:
+        if t not in out:
+            out.append(t)
+    return out
+
+
+def combine(rs):
+    if any(r is None for r in rs) or not rs:
+        return None
+    return "user" if "user" in rs else "lit"
+
+
+def peval(t, assume):
+    """partial evaluation of an `if` test under `<anything>.<option> = value` assumptions"""
+    if isinstance(t, ast.Attribute) and t.attr in assume:
+        return bool(assume[t.attr])
+    if isinstance(t, ast.Compare) and len(t.ops) == 1 and isinstance(t.left, ast.Attribute) \
+            and t.left.attr in assume and isinstance(t.comparators[0], ast.Constant):
+        a, b = assume[t.left.attr], t.comparators[0].value
+        if isinstance(t.ops[0], ast.Is):
+            return a is b
+        if isinstance(t.ops[0], ast.IsNot):
+            return a is not b
+        if isinstance(t.ops[0], ast.Eq):
+            return a == b
+        if isinstance(t.ops[0], ast.NotEq):
+            return a != b
+        return None
+    if isinstance(t, ast.UnaryOp) and isinstance(t.op, ast.Not):
+        v = peval(t.operand, assume)
+        return None if v is None else (not v)
+    if isinstance(t, ast.BoolOp):
+        vs = [peval(v, assume) for v in t.values]
+        if isinstance(t.op, ast.And):
+            if any(v is False for v in vs):
+                return False
+            return True if all(v is True for v in vs) else None
+        if any(v is True for v in vs):
+            return True
+        return False if all(v is False for v in vs) else None
+    return None
+
+
+_X = Extractor
+SPECIAL = {
+    "builtins.getattr": _X.sp_attr(None, "getattr"),
+    "builtins.setattr": _X.sp_attr(None, "setattr"),
+    "builtins.hasattr": _X.sp_attr(None, "hasattr"),
+    "builtins.delattr": _X.sp_attr(None, "delattr"),
+    "builtins.open": _X.sp_open,
+    "io.open": _X.sp_open,
+}
+
+
+# ---------------------------------------------------------------------- output
+def coq_str(s):
+    out = []
+    for ch in s:
+        if ch == '"':
+            out.append('""')
+        elif 32 <= ord(ch) < 127:
+            out.append(ch)
+        else:
+            out.append("?")
+    return '"' + "".join(out) + '"'
+
+
+def emit(x):
+    names = sorted(x.edges)
+    # stable ids: bodies first, then pseudo nodes, then leaves (all sorted by name)
+    bodies = sorted(f.qual for f in x.funcs)
+    pseudo = ["<implicit>", "<unknown-callee>", SENTINEL]
+    leaves = sorted(n for n in names if n not in set(bodies) and n not in pseudo)
+    for n in leaves:
+        if n not in x.leaf_eff:
+            raise Fail(f"leaf without effect class: {n}")
+    order = bodies + pseudo + leaves
+    idx = {n: i for i, n in enumerate(order)}
+    if len(idx) != len(order):
+        raise Fail("duplicate node names")
+    eff = {n: x.leaf_eff.get(n, PURE) for n in order}
+    entries = x.entry_nodes()
+    lines = ["(* GENERATED by /verif/gen/gen_callgraph.py from the live /repo sources. DO NOT EDIT. *)",
+             "From Coq Require Import List String.", "From Verif Require Import Effects.",
+             "Import ListNotations.", "Open Scope string_scope.", "",
+             "(* node id = position; successors by id *)",
+             "Definition g : graph :="]
+    rows = ["[" + "; ".join(str(idx[d]) for d in sorted(x.edges[n], key=idx.get)) + "]" for n in order]
+    lines.append("  [" + ";\n   ".join(rows) + "].\n")
+    lines.append("Definition effects : list eff :=")
+    lines.append("  [" + ";\n   ".join(eff[n] for n in order) + "].\n")
+    lines.append("Definition node_names : list string :=")
+    lines.append("  [" + ";\n   ".join(coq_str(n) for n in order) + "].\n")
+    lines.append("Definition entry_points : list nat :=")
+    lines.append("  [" + "; ".join(str(idx[e]) for e in entries) + "].\n")
+    lines.append("Definition n_bodies : nat := %d." % len(bodies))
+    lines.append("Definition sentinel : nat := %d." % idx[SENTINEL])
+    text = "\n".join(lines) + "\n"
+    return text, order, idx, eff, entries
+
+
+def reach(edges, start):
+    parent = {s: None for s in start}
+    todo = list(start)
+    while todo:
+        n = todo.pop(0)
+        for d in sorted(edges.get(n, ())):
+            if d not in parent:
+                parent[d] = n
+                todo.append(d)
+    return parent
+
+
+def path_to(parent, n):
+    p = []
+    while n is not None:
+        p.append(n)
+        n = parent[n]
+    return p[::-1]
+
+
+def main():
+    summary = {}
+    try:
+        x = Extractor()
+        x.build()
+        text, order, idx, eff, entries = emit(x)
+        os.makedirs(OUT, exist_ok=True)
+        path = os.path.join(OUT, "CallGraph.v")
+        old = open(path).read() if os.path.exists(path) else None
+        if old != text:
+            with open(path, "w") as fh:
+                fh.write(text)
+        parent = reach(x.edges, entries)
+        bad = sorted(n for n in parent if eff[n] == EFFECTFUL)
+        per_entry = {}
+        for e in entries:
+            p = reach(x.edges, [e])
+            per_entry[e] = sorted({eff[n] for n in p}, key=CLASSES.index)
+        bodies = {f.qual for f in x.funcs}
+        summary = {
+            "CallGraph": {"digest": hashlib.sha256(text.encode()).hexdigest()[:16]},
+            "sources": {x.short(m): hashlib.sha256(m.src.encode()).hexdigest()[:16]
+                        for m in x.modules.values() if m.in_scope},
+            "nodes": len(order), "bodies": len(bodies), "leaves": len(order) - len(bodies) - 3,
+            "edges": sum(len(v) for v in x.edges.values()),
+            "entry_points": entries,
+            "reachable": len(parent), "reachable_bodies": len([n for n in parent if n in bodies]),
+            "reachable_leaves": {n: eff[n] for n in sorted(parent) if n in x.leaf_eff},
+            "effectful_in_graph": sorted(n for n in order if eff[n] == EFFECTFUL),
+            "effectful_reaching_bodies": sorted(
+                b for b in bodies if any(eff[n] == EFFECTFUL for n in reach(x.edges, [b]))),
+            "python": ".".join(map(str, PYVER)),
+            "effectful_reachable": [{"leaf": n, "path": path_to(parent, n)} for n in bad],
+            "entry_effects": per_entry,
+            "pruned_branches": x.pruned,
+        }
+        print(json.dumps(summary, indent=1))
+        return 0
+    except Fail as e:
+        summary["CallGraph"] = {"error": f"extractor failed closed: {e}"}
+    except Exception as e:  # any crash of the extractor is a failure to establish the claim
+        import traceback
+        summary["CallGraph"] = {"error": f"{type(e).__name__}: {e}", "trace": traceback.format_exc()[-1500:]}
+    print(json.dumps(summary, indent=1))
+    return 2
+
+
+if __name__ == "__main__":
+    sys.exit(main())
